@@ -189,7 +189,10 @@ def run(ctx):
         g = LiveGen(j.table, rng, p_ring=rng.choice([0.1, 0.3, 0.5]), p_junk=rng.choice([0, 0, 0.01]),
                     max_depth=rng.choice([6, 12, 40]))
         for k in range(30):
-            if rng.random() < 0.1:
+            if k == 0 and ti % 6 == ctx.shard % 6:
+                x = g.string(rng.choice([1, 2]), rng.choice([4200, 6000, 9000]))      # scale: one fragment of several thousand symbols
+                ctx.count("g2.very_long")
+            elif rng.random() < 0.1:
                 x = g.string(1, rng.choice([300, 900]), ring_dense=True)
             elif rng.random() < 0.1:
                 x = g.deep(rng.randint(2, 40) if rng.random() < 0.8 else rng.choice([120, 300]))
